@@ -13,6 +13,21 @@ CHECKS = {
  "C03": dict(technique="TLA+ observation validation: every path from discoveries() of all five strategies judged by Graph!ValidWitness",
              text="Each reported path (states and actions) of every run, for all five strategies x finish conditions x targets x seeds x threads, is re-validated by TLC against the table model: real in-boundary execution, right last state, eventually-paths never meet the condition and are maximal (or close a cycle in simulation).",
              note="trusts TLC and the harness projection; interleavings sampled", ref="4/C03"),
+ "C06": dict(technique="TLA+ whole-graph conformance: every reachable state of real ActorModels (all enabled actions, successors, ignored actions) judged by TLC against ActorSystem.tla; TLC explores the same systems (MCActorSystem) with design-level invariants",
+             text="For every reachable state of thousands of generated table-actor systems x 3 network kinds x lossy x crash budgets x history hooks, the real model's actions()/next_state()/init_states()/next_steps() are compared by TLC with Enabled/Apply/IsIgnored/InitState of the specification; by induction the reachable graphs coincide, and TLC's own exploration finds the same number of states.",
+             note="handlers are represented by tables over small alphabets; trusts TLC and the JSON projection", ref="4/C06"),
+ "C07": dict(technique="TLA+ whole-graph conformance of network contents + TLC model checking of transport guarantees over history variables (MCNetHistory) + Network observers judged against NetLen/AllEnvs/Deliverable",
+             text="Send/deliver/drop effects of the real Network on every reachable state of generated systems conform to ActorSystem.tla, whose transport guarantees (ordered: consumed+queued = sent per flow; non-duplicating: sent = delivered+dropped+in flight; duplicating: in flight iff sent since last drop) TLC checks in every interleaving within a send bound; len/iter_all/iter_deliverable are judged per state.",
+             note="MCNetHistory is bounded (<=6 sends, <=7 consumptions per behaviour)", ref="4/C07"),
+ "C09": dict(technique="TLA+ whole-graph conformance with crash budgets + TLC invariants CrashedSilent/CrashCommutes/CrashOffered + real checker state counts vs TLC's count",
+             text="Crash actions and their effects on every reachable state conform to the specification; TLC checks on the spec that crashed actors are silent and that crashing commutes with every step of other actors; every subset of actors within the budget occurs as a recorded crashed-set, and unique_state_count() of real BFS/DFS equals the number of distinct states (and TLC's own count).",
+             note="table actors over small alphabets; budgets 1, 2, n with <=3 actors", ref="4/C09"),
+ "C15": dict(technique="TLA+ whole-graph conformance of adapter-wrapped models against the spec of the UNWRAPPED tables",
+             text="Systems wrapped in Choice (every position of 1-3 level nestings), RegisterActor::Server, WORegisterActor::Server and scripted Vec clients must have exactly the reachable graph that ActorSystem.tla assigns to the unwrapped tables (messages, timers, cancel, random choices all used).",
+             note="adapter tag is stripped by the projection after being checked", ref="4/C15"),
+ "C04": dict(technique="TLA+ judge over recorded hasher byte streams of all reachable states (stream is an injective function of the abstract state) + real BFS/DFS unique counts vs TLC's distinct-state count",
+             text="For every reachable state of generated actor systems the byte stream fed to the Hasher is recorded; TLC judges that equal abstract states give equal streams and distinct ones distinct streams, and that the real checkers count exactly the distinct states TLC finds on the specification.",
+             note="64-bit collisions of the final ahash are out of scope; value-level enumeration of containers is in the thorough tier (Identity.tla)", ref="4/C04"),
  "C11": dict(technique="TLA+ observation validation against Graph!EvCex (maximal-path semantics), exactness on generated forests",
              text="Reported eventually-counterexamples are judged by TLC against the existence of a maximal in-boundary path avoiding the condition (terminal or cycle in the non-sat region); on forest-shaped graphs the converse is judged too.",
              note="trusts TLC; forests are recognised by Graph!IsForest", ref="4/C11"),
